@@ -454,7 +454,7 @@ def _holder_of(kindname, rng, shape, fill, hist=None):
 def _w_innerprod(case, ctx, rng, shape, N):
     # operand histories: both constructed, exactly one of them grown by assignment, both grown
     grown = case.get("hist") == "grown"
-    sel = (case["cseed"] // 3) % 3
+    sel = (gen.pick(case) // 3) % 3
     ha = "grown" if grown and sel != 0 else None
     hb = "grown" if grown and sel != 1 else None
     ctx.feat(hist_pair=f"{ha or 'ctor'}/{hb or 'ctor'}")
@@ -570,7 +570,7 @@ def _w_scale(case, ctx, rng, shape, N):
             if len(dims) != 1 and name != "tensor":
                 continue
             # a plain array factor over several modes, in either memory layout (the layout is not part of the meaning)
-            farg = F.copy() if case["cseed"] % 2 else np.asfortranarray(F)
+            farg = F.copy() if gen.pick(case) % 2 else np.asfortranarray(F)
         elif fk == "tensor":
             farg = ttb.tensor(F.copy())
         else:
